@@ -36,6 +36,9 @@ CLAIMED = {
  "C06": ("Hypothesis-generated well-posed nonlinear problems fitted with both backends; validity predicates against the independent reference cost",
          "Generated-input search: for problems whose reference cost has a well-conditioned minimum near the truth (operational well-posedness, rate reported), the reported optimum must not be undercut by more than 1e-3 at 30 displaced points per backend within the limits (0.01/0.1/0.5 sigma, random directions), iminuit and scipy must agree within 0.05 sigma, fixed parameters keep their exact values, limited ones stay in the closed interval, and the iterative treatment must be a fixed point (refit with the covariance frozen at the reported optimum moves < 0.05 sigma). Families: exponential, power law, Gaussian/Lorentzian peak, sinusoid, logistic (xy, with x-errors and model-relative errors), histogram Poisson / Gauss-approximation, unbinned, nonlinear indexed maps.",
          "Trusts kverif/fitspec.py Ref.cost as the full parameter-dependent cost; start values within 5 % (frequencies 1.5 %) of the truth; active limits only on amplitude-like parameters; one open known finding (KF-C06-1: scipy + limits stops early) excluded by signature.", "DESIGN.md §4 C06"),
+ "C07": ("Hypothesis-generated quadratic surfaces (adapter level, errordef, fixed subsets) and fitted linear / well-posed nonlinear problems vs. closed forms and the independently re-minimised reference cost",
+         "Generated-input search: adapter level - covariance = 2*errordef*H^-1 on the free block with exact zero rows/columns, errors, correlation, Hessian, profile points, asymmetric errors, contour points against closed forms of a conditional quadratic form; fit level - reported covariance vs 2 H^-1 of the reference cost (generalised eigenvalues), errors/correlations consistent with the reported matrix, every returned profile point vs the reference cost re-minimised with the parameter pinned (continuation + BFGS + Nelder-Mead), asymmetric errors at profile rise 1 +- 0.1, contour points at rise n^2, XYFit.error_band vs sqrt(diag(J C J^T)) with analytic J and the reported C.",
+         "Trusts the reference cost and scipy.optimize for re-minimisation (an upper bound of the profile: a reference value above kafe2's is 'inconclusive', never a violation); operational well-posedness filters (PD Hessian cond<=5e3, parameters determined to 30 %, no relative uncertainty on near-zero values, roughly parabolic & unimodal profiles) with reported discard rates; five open known findings (KF-C07-1..5: scipy generic asymmetric errors / profile / numdifftools covariance, isolated bad MINUIT profile/contour points) excluded by signature or bug model.", "DESIGN.md §4 C07"),
 }
 NOT_YET = "check not built yet in this session (work in progress; see DESIGN.md §10 build order)"
 
